@@ -202,12 +202,12 @@ class Epoch:
         if name == 'ChainForce':
             ch = sl['chains'][act['m'] - 1]
             names = sorted(act['T'])
-            arg = names[0] if len(names) == 1 and self.opts.get('str_force') else names
+            arg = names[0] if len(names) == 1 and self.opts.get('str_force') else self._force_arg(names, ch)
             ch.force(arg, recompute=act['rec'], delete_data=act['del'])
             return out
         if name == 'MultiForce':
             if sl['mc'] is not None and len(sl['mc'].chains) == len(sl['chains']):
-                sl['mc'].force(sorted(act['T']), recompute=act['rec'], delete_data=act['del'])
+                sl['mc'].force(self._force_arg(sorted(act['T']), None), recompute=act['rec'], delete_data=act['del'])
             else:   # chains built one after the other on a shared registry: what MultiChain.force does, by hand
                 for ch in sl['chains']:
                     ch.force(sorted(act['T']), recompute=act['rec'], delete_data=act['del'])
@@ -224,6 +224,17 @@ class Epoch:
                     _ = t.name_for_persistence
             return out
         raise ValueError(name)
+
+    def _force_arg(self, names, chain):
+        """the forms the `tasks` argument of force may take: a list, a one-shot iterable, a tuple, Task objects"""
+        form = (self.stepno + len(names)) % 4
+        if form == 1:
+            return (n for n in names)
+        if form == 2:
+            return tuple(names)
+        if form == 3 and chain is not None:
+            return [chain[n] for n in names]
+        return list(names)
 
     def _tree(self, task, value):
         kind = task.__class__._vspec['kind']
